@@ -547,6 +547,42 @@ macro_rules! timer_harness {
 timer_harness!(b_fixed_add_adv_adv, hist_add_adv_adv, Kind::Fixed, 40000, 100, 30000);
 
 
+// @verif prop=C07,C08,C09,C10 tier=thorough timeout=3000 mem=16 unwind=5 unwindset=::advance\.1$:2,::advance\.0$:3,::add\.0$:2,::add\.1$:1
+// @enc Timers::{add_max,mod_max,del_max} Timers::advance Timers::next_expiry (real code end to end through a short history; cross-check of the inductive layer)
+// @sym uptime in [0,40000 s]; every instant in [up-100 s, up+30000 s] (any ns)
+// @bound 1 Max timer; history: add; update; advance; stale-key ops; each advance <= 30100 s; map model capacity 2
+// @stub FnOnceQueue::push_box -> callback invoked at once
+// @assume BTreeMap modelled by harness/model/vmap.rs; initial state = empty timer set at arbitrary uptime (constructed)
+timer_harness!(b_max_add_upd_adv, hist_add_upd_adv, Kind::Max, 40000, 100, 30000);
+// @verif prop=C07,C08,C09,C10 tier=thorough timeout=3000 mem=16 unwind=5 unwindset=::advance\.1$:2,::advance\.0$:3,::add\.0$:2,::add\.1$:1
+// @enc Timers::{add_min,mod_min,del_min} Timers::advance Timers::next_expiry (real code end to end through a short history; cross-check of the inductive layer)
+// @sym uptime in [0,40000 s]; every instant in [up-100 s, up+30000 s] (any ns)
+// @bound 1 Min timer; history: add; update; advance; stale-key ops; each advance <= 30100 s; map model capacity 2
+// @stub FnOnceQueue::push_box -> callback invoked at once
+// @assume BTreeMap modelled by harness/model/vmap.rs; initial state = empty timer set at arbitrary uptime (constructed)
+timer_harness!(b_min_add_upd_adv, hist_add_upd_adv, Kind::Min, 40000, 100, 30000);
+// @verif prop=C07,C08,C09,C10 tier=thorough timeout=3000 mem=16 unwind=5 unwindset=::advance\.1$:2,::advance\.0$:3,::add\.0$:2,::add\.1$:1
+// @enc Timers::{add_min,mod_min} Timers::advance Timers::next_expiry (real code end to end through a short history; cross-check of the inductive layer)
+// @sym uptime in [0,40000 s]; every instant in [up-100 s, up+30000 s] (any ns)
+// @bound 1 Min timer; history: add; advance; update; advance (the shape of finding F1); each advance <= 30100 s; map model capacity 2
+// @stub FnOnceQueue::push_box -> callback invoked at once
+// @assume BTreeMap modelled by harness/model/vmap.rs; initial state = empty timer set at arbitrary uptime (constructed)
+timer_harness!(b_min_add_adv_upd_adv, hist_add_adv_upd_adv, Kind::Min, 40000, 100, 30000);
+// @verif prop=C07,C08,C09,C10 tier=thorough timeout=3000 mem=16 unwind=5 unwindset=::advance\.1$:2,::advance\.0$:3,::add\.0$:2,::add\.1$:1
+// @enc Timers::{add_max,del_max} Timers::advance Timers::next_expiry (real code end to end through a short history; cross-check of the inductive layer)
+// @sym uptime in [0,40000 s]; every instant in [up-100 s, up+30000 s] (any ns)
+// @bound 1 Max timer; history: add; advance; delete; advance; delete; each advance <= 30100 s; map model capacity 2
+// @stub FnOnceQueue::push_box -> callback invoked at once
+// @assume BTreeMap modelled by harness/model/vmap.rs; initial state = empty timer set at arbitrary uptime (constructed)
+timer_harness!(b_max_add_adv_del_adv, hist_add_adv_del_adv, Kind::Max, 40000, 100, 30000);
+// @verif prop=C07,C08,C09,C10 tier=thorough timeout=3000 mem=16 unwind=5 unwindset=::advance\.1$:2,::advance\.0$:3,::add\.0$:2,::add\.1$:1
+// @enc Timers::{add_min,mod_min} Timers::advance Timers::next_expiry (real code end to end through a short history; cross-check of the inductive layer)
+// @sym uptime in [0,40000 s]; every instant in [up-100 s, up+30000 s] (any ns)
+// @bound 1 Min timer; history: add; update; run at next_expiry(); each advance <= 30100 s; map model capacity 2
+// @stub FnOnceQueue::push_box -> callback invoked at once
+// @assume BTreeMap modelled by harness/model/vmap.rs; initial state = empty timer set at arbitrary uptime (constructed)
+timer_harness!(b_min_progress, hist_progress, Kind::Min, 40000, 100, 30000);
+
 // ------------------------------------------------------------------------------------------
 // Layer I: INDUCTIVE steps at tick level (unbounded histories)
 //
@@ -917,6 +953,22 @@ ind_harness!(i_adv_max, ind_advance(Kind::Max, 70000));
 // @stub FnOnceQueue::push_box -> callback invoked at once
 // @assume BTreeMap modelled by harness/model/vmap.rs; single pending timer
 ind_harness!(i_adv_min, ind_advance(Kind::Min, 70000));
+
+// thorough: jumps up to 140000 s (five internal steps)
+// @verif prop=C07,C08,C09,C10 tier=thorough timeout=3400 mem=20 unwind=5 unwindset=::advance\.1$:7,::advance\.0$:3
+// @enc Timers::advance (Max branch)
+// @sym any INV(max) pre-state; target up to 140000 s ahead
+// @bound one advance of <= 140000 s (<= 5 internal steps) from an arbitrary INV state
+// @stub FnOnceQueue::push_box -> callback invoked at once
+// @assume BTreeMap modelled by harness/model/vmap.rs; single pending timer
+ind_harness!(i_adv_max_long, ind_advance(Kind::Max, 140000));
+// @verif prop=C07,C08,C09,C10,C19 tier=thorough timeout=3400 mem=20 unwind=5 unwindset=::advance\.1$:7,::advance\.0$:3
+// @enc Timers::advance (fixed branch)
+// @sym any INV(fixed) pre-state; target up to 140000 s ahead
+// @bound one advance of <= 140000 s (<= 5 internal steps) from an arbitrary INV state
+// @stub FnOnceQueue::push_box -> callback invoked at once
+// @assume BTreeMap modelled by harness/model/vmap.rs; single pending timer
+ind_harness!(i_adv_fixed_long, ind_advance(Kind::Fixed, 140000));
 
 // ---- update / delete / stale-key steps
 // @verif prop=C07,C08,C09,C10 tier=quick timeout=1200 mem=10 unwind=5
